@@ -44,6 +44,9 @@ func CheckOutputs(feats Features, ext map[string]string, t Transcript) []string 
 		if feats.Has("probe2") && !reflect.DeepEqual(m["probe2"], "none/none") {
 			add(i, "probe2 (reads globals 'leak' and '_node' it was not passed) = %v, want none/none", m["probe2"])
 		}
+		if feats.Has("probe3") && !reflect.DeepEqual(m["probe3"], "json/math") {
+			add(i, "probe3 (uses the built-ins JSON and Math) = %v, want json/math", m["probe3"])
+		}
 		if feats.Has("w4") && m["w4"] != nil {
 			add(i, "w4 (newline after return) = %v, want the call to fail (undefined) and be ignored", m["w4"])
 		}
@@ -83,6 +86,18 @@ func CheckOutputs(feats Features, ext map[string]string, t Transcript) []string 
 			got, _ := m["tdarr"].([]interface{})
 			if !reflect.DeepEqual(got, want) && !(len(got) == 0 && len(want) == 0) {
 				add(i, "tdarr = %v, want [tda, tdc] = %v", m["tdarr"], want)
+			}
+		}
+		if a2, ok := m["anc2"].(map[string]interface{}); ok {
+			var first interface{}
+			started := false
+			for k, v := range a2 {
+				if !started {
+					first, started = v, true
+				} else if !reflect.DeepEqual(first, v) {
+					add(i, "anc2.%s = %v differs from another anc2 field = %v (all select the record's c)", k, v, first)
+					break
+				}
 			}
 		}
 		if feats.Has("qa") && feats.Has("qb") && m["qa"] != nil && m["qb"] != nil {
